@@ -308,6 +308,9 @@ class ConditionLike:
         }
         CALLABLE_LOOKUP = {
             "in": "in_",
+            "keys_contain_n_of": "keys_contain_N_of",
+            "keys_contain_at_least_n_of": "keys_contain_at_least_N_of",
+            "keys_contain_at_most_n_of": "keys_contain_at_most_N_of",
         }
         PRE_PROC_LOOKUP = {
             "type": "dtype",
